@@ -457,6 +457,57 @@ def _compares_arg_with_state(atom) -> bool:
     return (is_arg_text(a) and not constantish(b) and not is_arg_text(b)) or (is_arg_text(b) and not constantish(a) and not is_arg_text(a))
 
 
+def _position_at_end(atom, value: bool) -> bool:
+    """A comparison of a (non-constant) argument position with the number of arguments: 'the keyword is the last argument'."""
+    from ..absint import is_const, show
+    if not (isinstance(atom, tuple) and atom and atom[0] == "cmp" and atom[1] in (">=", ">", "==", "<", "<=", "!=")):
+        return False
+    a, b = show(atom[2]), show(atom[3])
+
+    def is_len(t):
+        return "len(" in t and ("getText" in t or "param" in t or "single_argument" in t)
+    if not (is_len(a) != is_len(b)):
+        return False
+    other = atom[3] if is_len(a) else atom[2]
+    if is_const(other):
+        return False
+    return True
+
+
+def _unexplained_rejection(r, lm, k: str) -> Optional[str]:
+    """None when the error row is one of the rejections that exist today (argument count outside ACCEPTED_ARITY, a keyword at
+    the very end of the argument list, no enclosing class); else a description of the path condition."""
+    from ..absint import show
+    from .bindings import _len_interval
+    lo_exp, hi_exp = ACCEPTED_ARITY[k]
+    lo, hi = _len_interval(r, lm)
+    if (hi is not None and hi < lo_exp) or (hi_exp is not None and lo > hi_exp):
+        return None
+    st = r.outcome.state
+    handler_types = {a[1] for a, v in r.outcome.conds if a[0] == "exc" and v and a[1] != "Exception"}
+    if handler_types:
+        # rejected through an except handler: today that is `except IndexError` around "the argument after the keyword"
+        if handler_types <= {"IndexError"}:
+            return None
+        return f"through `except {', '.join(sorted(handler_types))}` (more than the missing value of a keyword is treated as an error)"
+    for a, v in r.outcome.conds:
+        if a[0] in ("nonempty", "truthy") and a[1] == lm.clsstack and not v:
+            return None
+        if a[0] == "isnone" and lm.roles.get("classstack", "\0") in show(a[1]) and v:
+            return None
+        if a[0] == "loopexit":
+            lp = st.loops.get(a[1])
+            oc = lp["outcomes"][a[2]] if lp and a[2] < len(lp["outcomes"]) else None
+            if oc is not None and any(c[0] == "exc" for c, _v in oc["conds"]):
+                return None
+            if oc is not None and any(_position_at_end(c, v2) for c, v2 in oc["conds"]):
+                return None
+        if _position_at_end(a, v):
+            return None
+    conds = " & ".join(("" if v else "not ") + show(a)[:60] for a, v in r.outcome.conds if a[0] not in ("exc",))
+    return conds[:200] or "unconditional"
+
+
 def rule_rejections(rep: Report, repo: Repo, rule: str, kinds=None) -> None:
     """A command is rejected (error logged / exception raised, no entry) only because of its own argument count, a keyword
     without value, or because it stands outside the block it needs - never because its argument *text* differs from something the
@@ -473,6 +524,13 @@ def rule_rejections(rep: Report, repo: Repo, rule: str, kinds=None) -> None:
                     continue
                 n += 1
                 bad = [a for a, v in r.outcome.conds if _compares_arg_with_state(a)]
+                exc_types = {a[1] for a, v in r.outcome.conds if a[0] == "exc" and v}
+                if not bad and ev == "DOC" and r.error and k in ACCEPTED_ARITY and (not exc_types or not exc_types <= {"Exception"}):
+                    why_not = _unexplained_rejection(r, lm, k)
+                    rep.check(why_not is None, rule, WHERE, f"{ev} {k} rejection [{row_case(r)[:60]}] explained",
+                              f"a documented {k}() with an acceptable number of arguments is rejected (error logged, no entry, its "
+                              f"doccomment lost) for a reason other than a keyword without value or a missing enclosing class: {why_not}",
+                              witness=f"{k}() in a form CMake accepts, e.g. add_test(<name> <command>) without the NAME keyword")
                 rep.check(not bad, rule, WHERE, f"{ev} {k} rejection [{row_case(r)[:60]}]",
                           f"a well-formed {k}() is rejected because its argument text is compared with remembered state "
                           f"(`{show(bad[0])[:90] if bad else ''}`): the command and what follows it are documented wrongly or not at all",
